@@ -108,6 +108,7 @@ type Explorer struct {
 	totalSteps int
 	truncated  bool
 	decisions  int
+	polyDump   func(in *Interp, target Value)
 }
 
 func NewExplorer(prog *ssa.Program, fn *ssa.Function, cfg *HarnessCfg) *Explorer {
